@@ -194,6 +194,7 @@ def iban_shard(args):
         if filler in ("distinct", "natvalid"):
             gens.append(families.iban_prefixes(base))
             gens.append(families.ws_padding(base))
+            gens.append(families.token_overlays(base, country))
         if tier == "thorough" and filler in ("distinct", "natvalid"):
             gens.append(families.double_subst(base))
         part.count(base, nontrivial=False)
